@@ -242,6 +242,117 @@ func evalC02Long(c C02LongCase) *h.Finding {
 
 func init() { h.RegisterReplayer("c02-long", evalC02Long) }
 
+// ---- a message before and a message after a STARTTLS upgrade ------------------------------------------------------------
+
+type C02UpgradeCase struct {
+	Mode  string `json:"mode"`
+	First string `json:"first"` // what was transferred in plaintext before the upgrade: none | data | bdat | data+bdat
+	Msg   int    `json:"msg"`   // index into c02UpgradeMsgs: the message sent with DATA inside TLS
+	Via   string `json:"via"`   // data | bdat: how the message inside TLS is sent
+}
+
+var c02UpgradeMsgs = []string{
+	"plain line\r\n",
+	"MAIL FROM:<bait@x.example>\r\n\n.\nRCPT TO:<bait@x.example>\r\n",
+	"a\n.\r\nMAIL FROM:<bait@x.example>\r\nb\r\n.\nQUIT\r\n",
+	"..\r\n.x\r\n\r.\r\r\r\nMAIL FROM:<bait@x.example>\r\n",
+	"",
+}
+
+// evalC02Upgrade: one connection, a message in plaintext, STARTTLS (real handshake), a message inside TLS followed by
+// pipelined commands. Everything the server keeps per connection for reading messages has to follow the upgrade:
+// the message inside TLS ends at ITS end marker and the commands behind it are executed, nothing of it is.
+func evalC02Upgrade(c C02UpgradeCase) *h.Finding {
+	cfg, be := modeConfig(c.Mode)
+	cfg.TLSAvailable = true
+	var f *h.Finding
+	desc := fmt.Sprintf("mode=%s: plaintext transfer %q, STARTTLS, then message %q via %s inside TLS with NOOP and MAIL pipelined behind it", c.Mode, c.First, c02UpgradeMsgs[c.Msg], c.Via)
+	var tail []byte
+	leak, pan := h.Bubble(func() {
+		live := h.NewLive(cfg, be, false)
+		live.Greeting()
+		hl := hello(c.Mode)
+		live.Send([]byte(hl))
+		env := "MAIL FROM:<ok@a.example>\r\nRCPT TO:<ok@b.example>\r\n"
+		if strings.Contains(c.First, "data") {
+			live.Send([]byte(env + "DATA\r\n"))
+			live.Send([]byte("first, in plaintext\r\n.\r\n"))
+		}
+		if strings.Contains(c.First, "bdat") {
+			live.Send([]byte(env + "BDAT 7\r\nchunked"))
+			live.Send([]byte("BDAT 6 LAST\r\n first"))
+		}
+		if out := live.Send([]byte("STARTTLS\r\n")); !strings.HasPrefix(string(out), "220") {
+			f = h.F("c02-upgrade-harness", "%s: STARTTLS answered %q", desc, out)
+			return
+		}
+		if err := live.StartTLSHandshake(); err != nil {
+			f = h.F("c02-upgrade-harness", "%s: handshake failed: %v", desc, err)
+			return
+		}
+		live.Send([]byte(hl))
+		live.NewEvents()
+		msg := c02UpgradeMsgs[c.Msg]
+		follow := "NOOP\r\nMAIL FROM:<okafter@a.example>\r\n"
+		if c.Via == "data" {
+			live.Send([]byte(env + "DATA\r\n"))
+			tail = live.Send([]byte(msg + "\r\n.\r\n" + follow))
+		} else {
+			tail = live.Send([]byte(env + fmt.Sprintf("BDAT %d LAST\r\n%s", len(msg), msg) + follow))
+		}
+		live.Hangup(h.TermEOF)
+	})
+	if f != nil {
+		return f
+	}
+	if pan != "" {
+		return h.F("c02-harness-panic", "%s: %s", desc, pan)
+	}
+	if leak != "" {
+		return h.F("c02-goroutine-leak", "%s: %.300s", desc, leak)
+	}
+	if a := be.FirstAnomaly(); a != "" {
+		return h.F("c02-backend-anomaly", "%s: %s", desc, a)
+	}
+	want := []byte(c02UpgradeMsgs[c.Msg])
+	if c.Via == "data" {
+		want, _, _ = ref.Unstuff([]byte(c02UpgradeMsgs[c.Msg] + "\r\n.\r\n"))
+	}
+	var last *h.Event
+	after := false
+	tr := be.Trace()
+	for i, e := range tr {
+		if strings.Contains(e.Arg, "bait@") {
+			return h.F("c02-bait-executed", "%s: message text was executed as a command: %s(%s)", desc, e.Kind, e.Arg)
+		}
+		if e.Kind == "Data" || e.Kind == "LMTPData" {
+			last = &tr[i]
+		}
+		if e.Kind == "Mail" && strings.HasPrefix(e.Arg, "okafter@") {
+			after = true
+		}
+	}
+	if last == nil || !bytes.Equal(last.Body, want) || last.ReadErr != "EOF" {
+		got := "no delivery"
+		if last != nil {
+			got = fmt.Sprintf("%q (%s)", last.Body, last.ReadErr)
+		}
+		return h.F("c02-upgrade-message", "%s: the backend read %s, want %q then EOF", desc, got, want)
+	}
+	rs, err := ref.ParseReplies(tail)
+	nFinal := 1
+	wantReplies := nFinal + 2
+	if c.Via == "bdat" {
+		wantReplies += 2 // MAIL and RCPT travel in the same send
+	}
+	if err != nil || len(rs) != wantReplies || rs[len(rs)-1].Code != 250 || rs[len(rs)-2].Code != 250 || !after {
+		return h.F("c02-desync-after-upgrade", "%s: behind the message NOOP and MAIL must be executed next (250, 250; Mail callback: %t); the server answered %q", desc, after, tail)
+	}
+	return nil
+}
+
+func init() { h.RegisterReplayer("c02-upgrade", evalC02Upgrade) }
+
 func C02(tier string) int {
 	run := h.NewRun("C02", tier, "exploration", "", 20*time.Minute)
 	maxTok := 3
@@ -249,6 +360,7 @@ func C02(tier string) int {
 		maxTok = 4
 	}
 	run.Rule = fmt.Sprintf("messages = all sequences of <=%d tokens from %q, terminated by CRLF.CRLF and followed by pipelined marker commands; x backend {reads all, 0, 1, n/2 octets} x {accept, reject} x size limit {none, n/2, n, n+10} x {SMTP, LMTP plain backend, LMTP per-recipient backend} x segmentation {one segment, one octet per segment, every 2-split from 4 octets before to 6 after the end marker; one segment also with MaxLineLength 8192, i.e. above the read-buffer size; every 2-split also from a SLOW peer: 40 virtual seconds of silence in the middle, WriteTimeout 10 s, ReadTimeout 30 min}. Distinct by construction; non-trivial = message contains a bait command or a terminator look-alike. Plus lines of 4090..12288 octets (around the multiples of the 4096-octet buffer), in the middle of the message and as its last line in front of the end marker, with a backend that returns early (after 0, 4, 10 octets), the backend verdict io.ErrUnexpectedEOF on a live connection, and messages with a line longer than MaxLineLength at 4 positions (refused and closed, or the message still ends at its end marker). Oracle: no bait address reaches the backend; replies and backend calls after the final DATA reply equal those the lines after the first true end marker (ref.Unstuff) produce on a connection that just finished a trivial transaction (differential).", maxTok, c02Tokens)
+	run.Rule += " Also: a message transferred in plaintext (DATA, BDAT, both), STARTTLS with a real handshake, then each of 5 messages with bait and look-alikes via DATA / BDAT LAST inside TLS with NOOP and MAIL pipelined behind it, x 3 modes: the message ends at its own end marker, the commands behind it run, none of its text does."
 	run.Assumptions = []string{"reply codes of the DATA command itself are judged by C04/C06, not here", "the reference run (same server code, trivial message) defines what the follow-up commands do; only its agreement with the run under test is judged"}
 	var msgs [][]int
 	var rec func(cur []int)
@@ -361,6 +473,23 @@ func C02(tier string) int {
 				run.Eval(true)
 				if f != nil {
 					run.Violate("c02-long", c, f, func() *h.Finding { return evalC02Long(c) })
+				}
+			}
+		}
+	}
+	for _, mode := range modes {
+		for _, first := range []string{"none", "data", "bdat", "data+bdat"} {
+			for mi := range c02UpgradeMsgs {
+				for _, via := range []string{"data", "bdat"} {
+					c := C02UpgradeCase{Mode: mode, First: first, Msg: mi, Via: via}
+					f := evalC02Upgrade(c)
+					run.Eval(first != "none")
+					if f != nil {
+						run.Violate("c02-upgrade", c, f, func() *h.Finding { return evalC02Upgrade(c) })
+						run.Outcome("violation:" + f.Sig)
+					} else {
+						run.Outcome("upgrade-ok")
+					}
 				}
 			}
 		}
